@@ -26,7 +26,7 @@ from ..world import World
 ANCHORED = ("__new__", "__get__", "bootstrap", "build_attr_spec", "for_class", "register_method",
             "register_methods", "get_methods_for_spec_class", "from_attr_value", "invalidation_map", "method")
 
-FIRST_USES = ["instantiate", "spec_class_lookup", "fields_lookup", "via_subclass", "hasattr", "instantiate"]
+FIRST_USES = ["instantiate", "spec_class_lookup", "fields_lookup", "via_subclass", "hasattr", "instantiate", "helper_on_class"]
 
 
 def _is_real_lock(v):
@@ -154,12 +154,24 @@ def do_thread_plan(world, plan):
     elif use == "hasattr":
         out["has"] = hasattr(Host, "__spec_class__")
         out["has_attrs"] = list(getattr(Host.__dict__.get("__spec_class__"), "attrs", None) or [])
+    elif use == "helper_on_class":
+        # a generated helper looked up on the class itself (possibly a subclass that nobody has bootstrapped yet): the
+        # descriptor found there replaces itself with the method it builds
+        # (before anything triggered a bootstrap there is no helper to find: that is what "lazy" means, so the lookup's
+        # own result is not compared -- what it leaves behind is)
+        getattr(Host, "update", None)
     elif use == "via_subclass" and "sub" in classes:
         out["subinst"] = abs_instance(classes["sub"](**{k: world.build(v, False) for k, v in plan["sub_kw"].items()}))
     cls = classes[role]
     inst = cls(**{k: world.build(v, False) for k, v in plan["kw"].items()})
     out["inst"] = abs_instance(inst)
     out["repr"] = strip_addr(repr(inst))
+    if plan.get("first_use") == "helper_on_class":
+        # ... and the instance's own top-level helper must still know every attribute of its class
+        own = [n for n in getattr(type(inst).__spec_class__, "attrs", {}) if n in inst.__dict__][-1:]
+        if own:
+            res = inst.update(**{own[0]: inst.__dict__[own[0]]})
+            out["update_own_attr"] = abs_instance(res) if is_spec_instance(res) else abs_value(res)
     h = plan.get("helper")
     if h:
         res = getattr(inst, h["m"])(*[world.build(a, False) for a in h["args"]])
